@@ -4,7 +4,7 @@ from __future__ import annotations
 import ast
 
 from vlib.core import AnalysisError, Report
-from vlib.match import closure_fi, has_call, nodes
+from vlib.match import closure_fi, deref, has_call, nodes, resolved_returns
 from vlib.norm import Expander
 from vlib.schema import dict_keys, returned_dicts, subscripted_keys, typeddict_keys
 from vlib.srcindex import SourceIndex, attr_chain, const_str, mangle, unparse, walk_no_nested
@@ -171,6 +171,17 @@ def run(rep: Report, tier: str) -> None:
 					reads_entry.add(n.attr)
 				if isinstance(n, ast.Attribute) and isinstance(n.value, ast.Attribute) and n.value.attr == 'meta' and isinstance(n.value.value, ast.Attribute) and mangle('EntryOfLark', n.value.value.attr) == entry_attr:
 					reads_meta.add(n.attr)
+			# reads through a local that holds the result of a same-class helper returning the wrapped entry and/or its meta (`o = self.__positioned(); o.line`)
+			for n in ast.walk(f.node):
+				if isinstance(n, ast.Attribute) and isinstance(n.value, ast.Name) and isinstance(n.value.ctx, ast.Load) and n.value.id != 'self':
+					src = deref(f.node, n.value)
+					if isinstance(src, ast.Call) and isinstance(src.func, ast.Attribute) and isinstance(src.func.value, ast.Name) and src.func.value.id == 'self':
+						for g in view.methods.get(src.func.attr, view.methods.get(mangle('EntryOfLark', src.func.attr), [])):
+							for e in resolved_returns(g):
+								if isinstance(e, ast.Attribute) and isinstance(e.value, ast.Name) and e.value.id == 'self' and mangle('EntryOfLark', e.attr) == entry_attr:
+									reads_entry.add(n.attr)
+								if isinstance(e, ast.Attribute) and e.attr == 'meta' and isinstance(e.value, ast.Attribute) and mangle('EntryOfLark', e.value.attr) == entry_attr:
+									reads_meta.add(n.attr)
 	if len(reads_entry) < 6:
 		raise AnalysisError(f'EntryOfLark reads only {sorted(reads_entry)} from the wrapped entry (analysis blind)')
 	try:
